@@ -122,6 +122,10 @@ var scenarios = map[string]scenario{
 		}
 		return s.W
 	}},
+	// D20 (known finding): the dBFT 2.0 liveness lock after a healed partition, four honest validators.
+	"D20-commit-after-changeview-lock": {Prop: "C09", Key: "D20-commit-after-changeview-lock", Run: func(keep bool) *sim.World {
+		return sim.ScenarioD20Lock([]*sim.Mon{sim.MonProgress("C09", -1)}, keep, &ReplaySrc{}, 12)
+	}},
 	// D7: the reference recovery message codec dropped pre-commits and lost the preparation hash.
 	"D7-recovery-codec-precommits": {Prop: "C19", Key: "D7-recovery-roundtrip-differs", Run: func(keep bool) *sim.World {
 		w := sim.NewWorld(soloCfg(1, 1, -1), &ReplaySrc{}, []int{0}, nil, nil, keep)
